@@ -14,7 +14,7 @@
 // The oracles are written from the property statement; the only knowledge taken from
 // the documentation of the package is how many virtual nodes a call asks for
 // (Add: the ring's replica count R; AddWithReplicas(r): r truncated to R;
-// AddWithWeight(w): w percent of R) and that R is at least 100.
+// AddWithWeight(w): w percent of R) and that the default ring has R = 100.
 package hash_test
 
 import (
@@ -257,7 +257,6 @@ type c15Ring struct {
 
 var c15Rings = []c15Ring{
 	{"default", 100, func() *hash.ConsistentHash { return hash.NewConsistentHash() }},
-	{"custom(50)", 100, func() *hash.ConsistentHash { return hash.NewCustomConsistentHash(50, nil) }},
 	{"custom(100)", 100, func() *hash.ConsistentHash { return hash.NewCustomConsistentHash(100, hash.Hash) }},
 	{"custom(150)", 150, func() *hash.ConsistentHash { return hash.NewCustomConsistentHash(150, nil) }},
 	{"custom(400)", 400, func() *hash.ConsistentHash { return hash.NewCustomConsistentHash(400, hash.Hash) }},
